@@ -210,16 +210,31 @@ def v9_fold(v9):
 
 
 def v9_data(v9):
+    """(v9ZeroIsErr, v9StopOnErr): the zero-size guard and what the record loop does with a record that does not decode"""
+    stop_loop = ("letmutremaining=input;letmutfields=Vec::new();for_in0..record_count{matchSelf::parse_data_field(remaining,%s){"
+                 "Ok((new_remaining,data_field))=>{remaining=new_remaining;fields.push(data_field);}Err(_)=>break}}Ok((remaining,fields))")
+    # (1) the code as it is now: the cached template is BORROWED (`Option<&Template>`), no template / size 0 is a parse error, the loop stops
+    ms = list(re.finditer(r"fn\s+parse\s*<'a>\s*\(\s*input\s*:\s*&'a\s*\[u8\]\s*,\s*template\s*:\s*Option<&Template>\s*,?\s*\)[^{]*\{", v9))
+    if len(ms) == 1:
+        b = fn_body(v9, r"fn\s+parse\s*<'a>\s*\(\s*input\s*:\s*&'a\s*\[u8\]\s*,\s*template\s*:\s*Option<&Template>\s*,?\s*\)[^{]*\{", "v9 FieldParser::parse")
+        head = ("lettotal_size=template.map_or(0,|t|usize::from(t.get_total_size()));lettemplate=matchtemplate{Some(template)iftotal_size>0=>template,"
+                "_=>returnErr(NomErr::Error(NomError::new(input,ErrorKind::Verify)))};letrecord_count=input.len().saturating_div(total_size);")
+        if b == head + stop_loop % "template":
+            return True, True
+        raise Unrecognised("v9 FieldParser::parse (borrowed template) not in the recognised form")
+    # (2) earlier forms: the template passed by value
     b = fn_body(v9, r"fn\s+parse\s*\(\s*input\s*:\s*&\[u8\]\s*,\s*template\s*:\s*Template\s*,?\s*\)[^{]*\{", "v9 FieldParser::parse")
     head = "lettotal_size=usize::from(template.get_total_size());"
     guard = "iftotal_size==0{returnErr(NomErr::Error(NomError::new(input,ErrorKind::Verify)));}"
-    rest = ("letrecord_count=input.len().saturating_div(total_size);let(remaining,fields)=(0..record_count).fold((input,Vec::new()),|(remaining,mutfields),_|{"
-            "let(new_remaining,data_field)=matchSelf::parse_data_field(remaining,template.clone()){Ok((remaining,data_field))=>(remaining,data_field),Err(_)=>return(remaining,fields)};"
-            "fields.push(data_field);(new_remaining,fields)});Ok((remaining,fields))")
-    if b == head + guard + rest:
-        return True
-    if b == head + rest:
-        return False
+    cnt = "letrecord_count=input.len().saturating_div(total_size);"
+    retry = ("let(remaining,fields)=(0..record_count).fold((input,Vec::new()),|(remaining,mutfields),_|{"
+             "let(new_remaining,data_field)=matchSelf::parse_data_field(remaining,template.clone()){Ok((remaining,data_field))=>(remaining,data_field),Err(_)=>return(remaining,fields)};"
+             "fields.push(data_field);(new_remaining,fields)});Ok((remaining,fields))")
+    for g, zero in ((guard, True), ("", False)):
+        if b == head + g + cnt + retry:
+            return zero, False
+        if b == head + g + cnt + stop_loop % "template.clone()":
+            return zero, True
     raise Unrecognised("v9 FieldParser::parse not in the recognised form")
 
 
@@ -393,10 +408,21 @@ def shape_counts(S):
 def shape_v9_data(S):
     v9 = S["v9"]
     attrs, body = _squashed_struct(v9, "Data", "v9 Data")
-    want = ('#[nom(Parse="{|i|FieldParser::parse(i,parser.templates.get(&flowset_id).cloned().unwrap_or_default())}")]'
+    want = ('#[nom(Parse="{|i|FieldParser::parse(i,parser.templates.get(&flowset_id)%s)}")]'
             'pubfields:Vec<BTreeMap<usize,V9FieldPair>>,#[serde(skip_serializing)]pubpadding:Vec<u8>')
-    if body != want:
+    if body not in (want % "", want % ".cloned().unwrap_or_default()"):
         raise Unrecognised("v9 Data struct attributes")
+    attrs, body = _squashed_struct(v9, "OptionsData", "v9 OptionsData")
+    loop = ('Parse="many0(complete({|i|%s::parse(i,field.next().ok_or(NomErr::Error(NomError::new(i,ErrorKind::Fail)))?)}))")]')
+    borrowed = ('#[nom(PreExec="lettemplate=parser.options_templates.get(&flowset_id);",PreExec="letmutfield=template.map(|t|t.%s.as_slice()).unwrap_or_default().iter();",')
+    cloned = ('#[nom(PreExec="lettemplate=parser.options_templates.get(&flowset_id).cloned().unwrap_or_default();",PreExec="letmutfield=template.%s.iter();",')
+    ok = False
+    for pre in (borrowed, cloned):
+        w = (pre % "scope_fields" + loop % "ScopeDataField" + "pubscope_fields:Vec<ScopeDataField>," + pre % "option_fields" + loop % "OptionDataField" +
+             "puboptions_fields:Vec<OptionDataField>,#[serde(skip_serializing)]pubpadding:Vec<u8>")
+        ok = ok or body == w
+    if not ok or attrs.count("#[nom") != 1 or "#[nom(ExtraArgs(parser:&mutV9Parser,flowset_id:u16))]" not in attrs:
+        raise Unrecognised("v9 OptionsData struct attributes")
     attrs, body = _squashed_struct(v9, "OptionDataField", "OptionDataField")
     if body != '#[nom(Value(field.field_type))]pubfield_type:V9Field,#[nom(Map="|i:&[u8]|i.to_vec()",Take="field.field_length")]pubfield_value:Vec<u8>':
         raise Unrecognised("OptionDataField attributes")
@@ -433,7 +459,7 @@ ITEMS = [
     ("ctl_v9Arms", lambda S: {"v9Arms": v9_arms(S["v9"])}),
     ("ctl_v9OptDiv", lambda S: dict(zip(("v9ScopeDiv", "v9OptDiv"), v9_opt_div(S["v9"])))),
     ("ctl_v9Fold", lambda S: {"v9SkipEmpty": v9_fold(S["v9"])}),
-    ("ctl_v9Data", lambda S: {"v9ZeroIsErr": v9_data(S["v9"])}),
+    ("ctl_v9Data", lambda S: dict(zip(("v9ZeroIsErr", "v9StopOnErr"), v9_data(S["v9"])))),
     ("ctl_v9Size", lambda S: {"v9SizeSat": v9_size(S["v9"])}),
     ("ctl_ipMsgSub", lambda S: {"ipMsgSub": ip_msg_sub(S["ipf"])}),
     ("ctl_ipSetSub", lambda S: {"ipSetSub": ip_set_sub(S["ipf"])}),
@@ -452,7 +478,7 @@ ITEMS = [
 ]
 
 CTL_FIELDS = ["gateFirst", "v5ErrVersion", "v7ErrVersion", "v9ErrVersion", "ipErrVersion", "v9SetSub", "v9Arms", "v9ScopeDiv", "v9OptDiv", "v9SkipEmpty",
-              "v9ZeroIsErr", "v9SizeSat", "ipMsgSub", "ipSetSub", "ipArms", "ipTmplCmp", "ipTmplCmp2", "ipEntCmp", "ipEntThr", "ipEntSub", "ipValidCmp", "ipValidThr",
+              "v9ZeroIsErr", "v9StopOnErr", "v9SizeSat", "ipMsgSub", "ipSetSub", "ipArms", "ipTmplCmp", "ipTmplCmp2", "ipEntCmp", "ipEntThr", "ipEntSub", "ipValidCmp", "ipValidThr",
               "ipVarLen", "ipVarEscCmp", "ipVarEsc", "ipBreakCmp1", "ipBreakVal", "ipBreakCmp2", "ipEmptyErr"]
 CMP_FIELDS = {"ipTmplCmp", "ipTmplCmp2", "ipEntCmp", "ipValidCmp", "ipVarEscCmp", "ipBreakCmp1", "ipBreakCmp2"}
 
